@@ -16,7 +16,11 @@ def one(m, with_tests):
     d = tempfile.mkdtemp(prefix="dbft-selftest-")
     try:
         run("rsync -a --exclude .git /repo/ %s/" % d)
-        for e in m["edits"]:
+        if "patch" in m:
+            rc, out = run("patch -p1 --no-backup-if-mismatch < %s" % os.path.join(HERE, m["patch"]), cwd=d)
+            if rc != 0:
+                return m["name"], "BROKEN-MUTATION", out[-300:]
+        for e in m.get("edits", []):
             p = os.path.join(d, e["file"])
             s = open(p).read()
             cnt = s.count(e["old"])
@@ -56,6 +60,10 @@ def main():
     with_tests = "--tests" in sys.argv
     pat = [a for a in sys.argv[1:] if not a.startswith("--")]
     ms = json.load(open(os.path.join(HERE, "selftest", "mutations.json")))
+    import glob
+    for mf in sorted(glob.glob(os.path.join(HERE, "seeded", "*", "meta.json"))):
+        meta = json.load(open(mf))
+        ms.append({"name": "seeded-" + meta["name"], "props": meta.get("check_props", [meta["property"]]), "patch": os.path.relpath(os.path.join(os.path.dirname(mf), "patch.diff"), HERE)})
     if pat:
         ms = [m for m in ms if any(p in m["name"] for p in pat)]
     bad = 0
